@@ -133,9 +133,12 @@ const (
 	kSleep
 	kNow
 	kSelect
+	kCondAdd
+	kCondWait
+	kCondSignal
 )
 
-var gateNames = [...]string{"draw", "log", "count", "probe", "go", "yield", "add", "wait", "lock", "unlock", "rlock", "runlock", "trylock", "exit", "panic", "note", "send", "send-done", "recv", "close", "chan-len", "nil-chan", "sleep", "now", "select"}
+var gateNames = [...]string{"draw", "log", "count", "probe", "go", "yield", "add", "wait", "lock", "unlock", "rlock", "runlock", "trylock", "exit", "panic", "note", "send", "send-done", "recv", "close", "chan-len", "nil-chan", "sleep", "now", "select", "cond-enqueue", "cond-wait", "cond-signal"}
 
 // GateName returns the readable name of a gate kind in a trace.
 func GateName(k uint8) string {
@@ -179,6 +182,7 @@ const (
 	gWaitForever
 	gSleeping
 	gWaitSelect
+	gWaitCond
 )
 
 type gor struct {
@@ -244,8 +248,16 @@ type Sim struct {
 	wgs      map[unsafe.Pointer]*wgState
 	mus      map[unsafe.Pointer]*muState
 	chans    map[unsafe.Pointer]*chanState
+	conds    map[unsafe.Pointer]*condState
 	maxG     int
 	now      int64 // virtual time, ns
+}
+
+// condState is the notify list of one sync.Cond: tickets are handed out in Wait (before the lock is released),
+// Signal wakes the oldest ticket not yet woken, Broadcast all.
+type condState struct {
+	next  int // next ticket
+	woken int // tickets below this number have been notified
 }
 
 var cur atomic.Pointer[Sim]
@@ -275,6 +287,7 @@ func Run(ch *Chooser, cfg Config, top func(*Sim)) Outcome {
 		wgs:    map[unsafe.Pointer]*wgState{},
 		mus:    map[unsafe.Pointer]*muState{},
 		chans:  map[unsafe.Pointer]*chanState{},
+		conds:  map[unsafe.Pointer]*condState{},
 		fp:     1469598103934665603,
 	}
 	g0 := &gor{id: 0, state: gRunning, begun: true}
@@ -440,6 +453,15 @@ func (s *Sim) chanOf(p unsafe.Pointer, capacity int) *chanState {
 	return c
 }
 
+func (s *Sim) condOf(p unsafe.Pointer) *condState {
+	c := s.conds[p]
+	if c == nil {
+		c = &condState{}
+		s.conds[p] = c
+	}
+	return c
+}
+
 func (s *Sim) parkedReceivers(p unsafe.Pointer) int {
 	n := 0
 	for _, x := range s.gs {
@@ -494,6 +516,8 @@ func (s *Sim) eligible(g *gor) bool {
 		return c.n > 0 || c.closed
 	case gWaitForever:
 		return false
+	case gWaitCond:
+		return s.condOf(g.obj).woken > g.seq
 	case gSleeping:
 		return s.now >= g.until
 	case gWaitSelect:
@@ -535,7 +559,7 @@ func (s *Sim) finish(kind OutcomeKind, r *req, pg int) {
 	}
 	if kind == OutDeadlock || kind == OutStepCap {
 		for _, g := range s.gs {
-			what := [...]string{"ready", "WaitGroup.Wait", "Mutex.Lock", "RWMutex.RLock", "running", "chan send", "chan send (unbuffered, waiting for the receiver)", "chan receive", "nil channel", "time.Sleep / timer", "select"}[g.state]
+			what := [...]string{"ready", "WaitGroup.Wait", "Mutex.Lock", "RWMutex.RLock", "running", "chan send", "chan send (unbuffered, waiting for the receiver)", "chan receive", "nil channel", "time.Sleep / timer", "select", "Cond.Wait"}[g.state]
 			out.Blocked = append(out.Blocked, fmt.Sprintf("g%d:%s", g.id, what))
 		}
 	}
@@ -712,6 +736,26 @@ func (s *Sim) loop() {
 		case kChanNil:
 			g.state, g.wake = gWaitForever, r.reply
 			soft = false
+		case kCondAdd:
+			c := s.condOf(r.obj)
+			r.reply <- reply{v: c.next}
+			c.next++
+			continue
+		case kCondWait:
+			g.state, g.obj, g.seq, g.wake = gWaitCond, r.obj, r.n, r.reply
+			if s.condOf(r.obj).woken <= r.n {
+				soft = false
+			}
+		case kCondSignal:
+			c := s.condOf(r.obj)
+			if r.n == 0 { // Signal
+				if c.woken < c.next {
+					c.woken++
+				}
+			} else { // Broadcast
+				c.woken = c.next
+			}
+			g.state, g.wake = gReady, r.reply
 		case kSleep:
 			g.state, g.wake, g.until = gSleeping, r.reply, s.now+r.dur
 			if r.dur > 0 {
